@@ -86,23 +86,21 @@ fn compose(a: Variance, b: Variance) -> Variance {
     }
 }
 
-#[kani::proof]
-#[kani::unwind(5)]
-fn k7_zip_substs_positions() {
-    let n: usize = kani::any_where(|n: &usize| *n <= 3);
-    let a = [lt(), lt(), lt()];
-    let b = [lt(), lt(), lt()];
+/// the contract, for a CONCRETE number of arguments and a fixed choice of "variances declared or not"
+/// (the symbolic-`n` version of this harness sat at the edge of the 300 s budget; split, each case takes seconds)
+fn check_positions(n: usize, with_variances: bool) {
+    // (never dropped: recursive drop glue of the IR types, DESIGN P15)
+    let a = core::mem::ManuallyDrop::new([lt(), lt(), lt()]);
+    let b = core::mem::ManuallyDrop::new([lt(), lt(), lt()]);
     let declared = [any_variance(), any_variance(), any_variance()];
-    let with_variances: bool = kani::any();
     let ambient = any_variance();
     let fail_at: usize = kani::any_where(|k: &usize| *k <= 3);
-    let mut z = Recorder { seen: [None; 4], count: 0, fail_at, db: Db };
+    let mut z = core::mem::ManuallyDrop::new(Recorder { seen: [None; 4], count: 0, fail_at, db: Db });
     let vs = if with_variances { Some(Variances::from_iter(I, declared)) } else { None };
-    let vs = core::mem::ManuallyDrop::new(vs);
-    let r = z.zip_substs(ambient, (*vs).clone(), &a[..n], &b[..n]);
+    let r = z.zip_substs(ambient, vs, &a[..n], &b[..n]);
 
-    kani::cover!(r.is_ok() && n == 3);
-    kani::cover!(r.is_err() && fail_at == 1);
+    kani::cover!(r.is_ok());
+    kani::cover!(n == 0 || r.is_err());
     if fail_at < n {
         assert!(r.is_err(), "the error of the failing position is returned");
         assert!(z.count == fail_at + 1, "nothing is related after a failure");
@@ -117,3 +115,21 @@ fn k7_zip_substs_positions() {
         i += 1;
     }
 }
+
+macro_rules! k7_case {
+    ($name:ident, $n:expr, $wv:expr) => {
+        #[kani::proof]
+        #[kani::unwind(5)]
+        fn $name() {
+            check_positions($n, $wv);
+        }
+    };
+}
+k7_case!(k7_zip_substs_positions_n0_declared, 0, true);
+k7_case!(k7_zip_substs_positions_n1_declared, 1, true);
+k7_case!(k7_zip_substs_positions_n2_declared, 2, true);
+k7_case!(k7_zip_substs_positions_n3_declared, 3, true);
+k7_case!(k7_zip_substs_positions_n0_none, 0, false);
+k7_case!(k7_zip_substs_positions_n1_none, 1, false);
+k7_case!(k7_zip_substs_positions_n2_none, 2, false);
+k7_case!(k7_zip_substs_positions_n3_none, 3, false);
